@@ -142,8 +142,11 @@ Routed == \A i \in PIdx : ~(cfg.pa[i].loc = "path" /\ cfg.pa[i].kind \in {"strin
 \* validation as the server performs it
 \*   validate.exclusive_max_unchecked   with both ExclusiveMinimum and ExclusiveMaximum only the minimum is checked
 RequiredUnchecked(a, d) == d # Absent /\ d.s = "nofield" /\ a.nest = "mapval_nested" /\ a.rule = "none" /\ Dev("validate.map_value_required_unchecked")
+\* (validate.absent_collection_length: MinLength of an optional nil-able value - a list, a map, or Bytes carried as the raw
+\*  text of a parameter / header / cookie - is applied to the unset value)
+NilLengthChecked(a) == a.mode = "optional" /\ (a.rule = "cminlen" \/ (a.kind = "bytes" /\ a.loc # "body" /\ a.rule \in {"minlen", "lenrange"}))
 ServerValid(a, d) ==
-  IF d = Absent /\ a.mode = "optional" /\ a.rule = "cminlen" /\ Dev("validate.absent_collection_length") THEN FALSE
+  IF d = Absent /\ NilLengthChecked(a) /\ Dev("validate.absent_collection_length") THEN FALSE
   ELSE IF RequiredUnchecked(a, d) THEN TRUE
   ELSE IF d # Absent /\ a.rule = "xrange" /\ Dev("validate.exclusive_max_unchecked") THEN Num2(d) > 2 * Lo
   ELSE ValidAttr(a, d)
@@ -154,7 +157,7 @@ CookieDropsErrorsOf(i) ==
   /\ \E j \in PIdxOf(cfg.pa) : /\ cfg.pa[j].loc = "cookie" /\ cfg.pa[j].mode = "required" /\ wire[j].loc # "none"
                                /\ (cfg.pa[i].loc \in {"path", "query", "header"} \/ (cfg.pa[i].loc = "cookie" /\ j > i))   \* decoded after i
 ServerViolation(a, d) ==
-  IF d = Absent /\ a.mode = "optional" /\ a.rule = "cminlen" THEN "invalid_length" ELSE ViolationOf(a, d)
+  IF d = Absent /\ NilLengthChecked(a) THEN "invalid_length" ELSE ViolationOf(a, d)
 
 ---------------------------------------------------------------------------
 \* The case (attribute shapes and values) is picked one attribute at a time, so that simulation can
